@@ -15,7 +15,7 @@ from __future__ import annotations
 import ast
 
 from ..effects import StateEffects, user_function_attrs
-from ..model import Program, is_self_attr, norm
+from ..model import Program, call_name, is_self_attr, norm
 from ..report import AnalysisError
 from . import c09
 
@@ -189,6 +189,10 @@ def _simulate_wrapper(w: ast.FunctionDef, scenario):
             return env.get(e.id, f"<{e.id}>")
         if isinstance(e, ast.Constant) and e.value is None:
             return None
+        if isinstance(e, ast.Call) and isinstance(e.func, ast.Attribute) and e.func.attr in ("copy", "view") and not e.args and ev(e.func.value, st, env) == "RES":
+            return "RES"  # a copy of the result is the result (value semantics)
+        if isinstance(e, ast.Call) and not (isinstance(e.func, ast.Name) and e.func.id == "method") and e.args and any(ev(a, st, env) == "RES" for a in e.args) and call_name(e).split(".")[-1] in ("_without_variable_aliasing", "asarray", "array", "ascontiguousarray", "copy"):
+            return "RES"  # value-preserving guards around the result
         if isinstance(e, (ast.Tuple, ast.List)) and any(ev(x, st, env) == "RES" for x in e.elts):
             return "RES"
         if isinstance(e, ast.Subscript) and ev(e.value, st, env) == "RES":
